@@ -40,9 +40,7 @@ theorem followTail_cons_ok {terms nulls : List σ} {first : SetMap σ} {A X n : 
     (h : followTail terms nulls first A X (n :: rest) (W, D) = .ok res) :
     ∃ w W1 D1, dget X W = some w ∧
       ((n ∈ terms ∧ W1 = dset X (sadd w n) W ∧ D1 = D) ∨
-       (n ∉ terms ∧ ∃ f, dget n first = some f ∧ W1 = dset X (sunion w f) W ∧
-          ((n ∈ nulls ∧ ∃ d, dget X D = some d ∧ D1 = dset X (sadd d n) D) ∨
-           (n ∉ nulls ∧ D1 = D)))) ∧
+       (n ∉ terms ∧ ∃ f, dget n first = some f ∧ W1 = dset X (sunion w f) W ∧ D1 = D)) ∧
       (if n ∈ nulls then followTail terms nulls first A X rest (W1, D1) else .ok (W1, D1))
         = .ok res := by
   unfold followTail at h
@@ -53,16 +51,8 @@ theorem followTail_cons_ok {terms nulls : List σ} {first : SetMap σ} {A X n : 
     exact ⟨w, _, _, dgetE_ok hw, Or.inl ⟨h1, rfl, rfl⟩, h⟩
   · rename_i h1
     obtain ⟨f, hf, h⟩ := exc_bind_ok h
-    split at h
-    · rename_i h2
-      obtain ⟨d, hd, h⟩ := exc_bind_ok h
-      simp only [pure_bind] at h
-      refine ⟨w, _, _, dgetE_ok hw, Or.inr ⟨h1, f, dgetE_ok hf, rfl, Or.inl ⟨h2, d, dgetE_ok hd, rfl⟩⟩, ?_⟩
-      simpa [h2] using h
-    · rename_i h2
-      simp only [pure_bind] at h
-      refine ⟨w, _, _, dgetE_ok hw, Or.inr ⟨h1, f, dgetE_ok hf, rfl, Or.inr ⟨h2, rfl⟩⟩, ?_⟩
-      simpa [h2] using h
+    simp only [pure_bind] at h
+    exact ⟨w, _, _, dgetE_ok hw, Or.inr ⟨h1, f, dgetE_ok hf, rfl, rfl⟩, h⟩
 
 theorem followTail_ok {terms nulls : List σ} {first : SetMap σ} {A X : σ} :
     ∀ (β : List σ) (st st' : SetMap σ × SetMap σ),
@@ -80,11 +70,9 @@ theorem followTail_ok {terms nulls : List σ} {first : SetMap σ} {A X : σ} :
     obtain ⟨w, W1, D1, hw, hstep, h⟩ := followTail_cons_ok h
     -- the step
     have hle1 : StLe (W, D) (W1, D1) := by
-      rcases hstep with ⟨_, hW, hD⟩ | ⟨_, f, _, hW, ⟨_, d, hd, hD⟩ | ⟨_, hD⟩⟩
+      rcases hstep with ⟨_, hW, hD⟩ | ⟨_, f, _, hW, hD⟩
       · subst hW; subst hD
         exact ⟨DLe_dset hw (sadd_sub w n), DLe.refl _⟩
-      · subst hW; subst hD
-        exact ⟨DLe_dset hw (fun y hy => mem_sunion.2 (Or.inl hy)), DLe_dset hd (sadd_sub d n)⟩
       · subst hW; subst hD
         exact ⟨DLe_dset hw (fun y hy => mem_sunion.2 (Or.inl hy)), DLe.refl _⟩
     have hterm : n ∈ terms → ∃ w1, dget X W1 = some w1 ∧ n ∈ w1 := by
